@@ -1,5 +1,6 @@
 import PlzVerif.Lemmas.CMapWake
 import PlzVerif.Lemmas.CMapTorn
+import PlzVerif.Lemmas.CMapValues
 import PlzVerif.Lemmas.CMapFacts
 import PlzVerif.Generated.C15
 /-!
@@ -40,6 +41,14 @@ theorem C15_model_matches_tables :
     expectedMapRows.map shardCall = modelMapRows ∧
     (∀ e f w, expectedGosAct e f w = modelGosAct e f w) := by
   refine ⟨by decide, by decide, by decide, by decide, by decide, by decide, by decide⟩
+
+open PlzVerif.CMap.Facts in
+/-- **One critical section = one atomic step** is what the code does: in every path of every shard method each
+    map access (lookup, store, close, iteration) lies between taking and releasing the shard lock, and every path
+    that stores or closes does so under the write lock (the second, re-checking access of `Get` included). -/
+theorem C15_accesses_under_lock :
+    (expectedSetRows ++ expectedLazySetRows ++ expectedGetRows ++ expectedContainsRows ++ expectedValuesRows ++
+      expectedRangeRows).all rowLockOK = true := by decide
 
 /-- `hasher(key) & mask` with `mask = shardCount - 1` and `shardCount` a power of two is `hasher(key) % shardCount`
     (the index function the driver uses). -/
@@ -125,6 +134,14 @@ theorem C15_witness_values_not_linearizable :
   obtain ⟨s, hex⟩ : ∃ s, Exec wcfg Sys.init tornTrace s :=
     ⟨_, by simpa [tornTrace, Torn.e0, Torn.e1, Torn.e2, Torn.e3, Torn.e4, Torn.e5] using e11⟩
   exact ⟨s, hex, torn_not_linearizable, C15_linearizable wcfg hex⟩
+
+/-- **What `Values()` guarantees regardless of how it walks the shards** (a statement that does not mirror the
+    loop): every value it returns — and every value it has collected so far — was stored in the map under some key;
+    never a placeholder's zero value, never an invented one.  (The converse, "every key added before the call is
+    in the result", holds per shard by `C15_linearizable`; across shards see the witnesses above.) -/
+theorem C15_values_sound {s : Sys V} (hr : Reach c s) {t : Tid} {l : List V} (h : s.pc t = .done (.vals l)) :
+    ∀ v ∈ l, ∃ k, v ∈ s.sh.stored k :=
+  (reach_vinv c hr).2.2 t l h
 
 /-! ## 2. Wake-ups -/
 
